@@ -120,6 +120,14 @@ impl SessionHandle {
         !old(self).is_ended ==> final(self).is_ended && r == engine_outcome(old(self).outcome),                // [C13.handle.end-reports-the-engines-outcome] [C14.handle.end-reports-why-the-session-stopped]
         !old(self).control.closed@ ==> final(self).control.sent@ == old(self).control.sent@.push(SessionControl::End(Some(error))),   // [C13.handle.end-with-error-carries-the-error] the error the application gave is the one the engine is asked to end with
 //@@ end
+//@@ fn file=fe2o3-amqp/src/session/mod.rs impl=`impl<R> Drop for SessionHandle<R>` name=drop id=SessionHandle::drop
+//@@ ret ()
+//@@ spec
+    ensures final(self).control.sent@.len() <= old(self).control.sent@.len() + 1,
+        final(self).control.sent@.len() == old(self).control.sent@.len() + 1 ==> final(self).control.sent@.last() == SessionControl::End(None),       // [C13.drop.session-handle-asks-for-a-clean-end] dropping a session handle asks ITS session engine -- and nobody else -- for a clean end (no error), without waiting: what was queued before is in front of the request, the connection is not touched
+        final(self).is_ended == old(self).is_ended, final(self).outcome == old(self).outcome,
+//@@ end
+
 }
 
 // ConnectionHandle<R>: the fields these methods touch (R11)
@@ -177,6 +185,15 @@ impl ConnectionHandle {
         !old(self).is_closed ==> final(self).is_closed && r == engine_outcome(old(self).outcome),              // [C12.handle.close-reports-the-engines-outcome] [C14.handle.close-reports-why-the-connection-stopped]
         !old(self).control.closed@ ==> final(self).control.sent@ == old(self).control.sent@.push(ConnectionControl::Close(Some(error))),   // [C12.handle.close-with-error-carries-the-error]
 //@@ end
+
+//@@ fn file=fe2o3-amqp/src/connection/mod.rs impl=`impl<R> Drop for ConnectionHandle<R>` name=drop id=ConnectionHandle::drop
+//@@ ret ()
+//@@ spec
+    ensures final(self).control.sent@.len() <= old(self).control.sent@.len() + 1,
+        final(self).control.sent@.len() == old(self).control.sent@.len() + 1 ==> final(self).control.sent@.last() == ConnectionControl::Close(None),       // [C12.drop.connection-handle-asks-for-a-clean-close] dropping the connection handle asks the engine for a clean close (no error), without waiting
+        final(self).is_closed == old(self).is_closed, final(self).outcome == old(self).outcome,
+//@@ end
+
 }
 
 // ---------------------------------------------------------------------------------------------------------------
@@ -277,6 +294,7 @@ impl ConnectionHandle2 {
         old(self).control.closed@ ==> r == Err::<OutgoingChannel, AllocSessionError>(AllocSessionError::ConnectionStopped(conn_reason_or_closed(old(self).connection_stop_reason))),   // [C14.begin.stopped-connection-says-why] a begin issued after the connection stopped fails with ConnectionStopped carrying the published reason (the peer's Close error, the transport's fate)
         final(self).connection_stop_reason == old(self).connection_stop_reason,
 //@@ end
+
 }
 pub struct ConnectionHandle2 { pub control: ControlTx<ConnectionControl2>, pub connection_stop_reason: Cell<ConnectionStopReason> }
 
